@@ -13,6 +13,7 @@ import (
 	corev1 "k8s.io/api/core/v1"
 	metav1 "k8s.io/apimachinery/pkg/apis/meta/v1"
 
+	aliclient "github.com/AliyunContainerService/terway/pkg/aliyun/client"
 	"github.com/AliyunContainerService/terway/pkg/aliyun/instance"
 	"github.com/AliyunContainerService/terway/pkg/k8s"
 	"github.com/AliyunContainerService/terway/pkg/utils/nodecap"
@@ -48,6 +49,19 @@ func (capMeta) GetVSwitchID() (string, error)    { return "vsw-1", nil }
 func (capMeta) GetPrimaryMAC() (string, error)   { return "00:16:3e:00:00:01", nil }
 func (capMeta) GetInstanceID() (string, error)   { return "i-verif", nil }
 func (capMeta) GetInstanceType() (string, error) { return capTypeID, nil }
+
+// capProvider stands in for the OpenAPI side of the ECS limit provider
+type capProvider struct {
+	real aliclient.LimitProvider
+	info string
+}
+
+func (p *capProvider) GetLimit(_ interface{}, instanceType string) (*aliclient.Limits, error) {
+	return p.real.GetLimitFromAnno(map[string]string{"alibabacloud.com/instance-type-info": p.info})
+}
+func (p *capProvider) GetLimitFromAnno(anno map[string]string) (*aliclient.Limits, error) {
+	return p.real.GetLimitFromAnno(anno)
+}
 
 func capInstanceType(it vt.M) *ecs.InstanceType {
 	return &ecs.InstanceType{
@@ -129,6 +143,21 @@ func TestVerifCapacityDaemon(t *testing.T) {
 				Name:        "n1",
 				Annotations: map[string]string{"alibabacloud.com/instance-type-info": string(info)},
 			}}
+			// "stale": the cached annotation describes another, much larger instance type (the instance was resized);
+			// "absent": no cached annotation. In both cases the real limits must come from the OpenAPI, played here by a
+			// provider whose GetLimit answers with the real type (through the real annotation parser).
+			if a := vt.Str(in["anno"]); a == "stale" || a == "absent" {
+				realProv := aliclient.LimitProviders["ecs"]
+				aliclient.LimitProviders["ecs"] = &capProvider{real: realProv, info: string(info)}
+				defer func() { aliclient.LimitProviders["ecs"] = realProv }()
+				if a == "absent" {
+					node.Annotations = map[string]string{}
+				} else {
+					big, _ := json.Marshal(&ecs.InstanceType{InstanceTypeId: "ecs.verif.big", EniQuantity: 8, EniTotalQuantity: 40,
+						EniPrivateIpAddressQuantity: 30, EniIpv6AddressQuantity: 30, EniTrunkSupported: true, EriQuantity: 2})
+					node.Annotations = map[string]string{"alibabacloud.com/instance-type-info": string(big)}
+				}
+			}
 
 			b := NewNetworkServiceBuilder(context.Background()).
 				WithConfigFilePath(confPath).
